@@ -16,6 +16,10 @@ From Evm Require Import EvmAbs GethStateDB EvmStateDB Transition EvmAbsProofs Ge
 Import ListNotations.
 Open Scope Z_scope.
 
+(* Function extensionality (the standard-library axiom FunctionalExtensionality.functional_extensionality, needed because
+   storage and the account map of the abstract state are functions) is an explicit hypothesis [funext_stmt] of the
+   theorems that use it, so every theorem below is closed under the global context. *)
+
 (* ------------------------------------------------------------------ the relation R
    R g e: both states are well formed and have the same abstraction: for every address the same nonce,
    balance, code, current storage, committed storage and self-destructed flag (an absent account and an
@@ -23,7 +27,7 @@ Open Scope Z_scope.
    snapshots.  [absg g] is the abstract state (Model/EvmAbs.v) both refine. *)
 
 (* R holds initially: two states built from the same EVM view *)
-Theorem C02_R_initial : forall objs store,
+Theorem C02_R_initial : funext_stmt -> forall objs store,
   (forall a, gview (objs a) = eview store (core0 store) a) ->
   (forall a o, objs a = Some o -> (forall k, g_stor o k = g_orig o k) /\ g_sui o = false) ->
   (forall a, stor_ok (gview (objs a))) ->
@@ -45,7 +49,7 @@ Print Assumptions C02_R_same_refund_logs.
 (* every interface operation the interpreter can issue (disc: Model/EvmAbs.v) succeeds on both, returns equal
    observations and preserves R; [extra] = the documented extra warm addresses of PrepareAccessList, the same
    on both sides: evermint is estep_x [coinbase], the reference is go-ethereum plus that one address *)
-Theorem C02_statedb_step : forall extra o g e,
+Theorem C02_statedb_step : funext_stmt -> forall extra o g e,
   R g e -> disc o (absg g) ->
   exists g' e' og oe,
     gstep_x extra o g = Some (g', og) /\ estep_x extra o e = Some (e', oe) /\
@@ -55,7 +59,7 @@ Proof. exact step_bisim. Qed.
 Print Assumptions C02_statedb_step.
 
 (* for all operation sequences (induction over list op), including Snapshot/RevertToSnapshot and Finalise/Commit *)
-Theorem C02_statedb_bisim_partial : forall extra ops g e,
+Theorem C02_statedb_bisim_partial : funext_stmt -> forall extra ops g e,
   R g e -> disc_run extra ops (absg g) ->
   exists g' e' l, run (gstep_x extra) ops g = Some (g', l) /\ run (estep_x extra) ops e = Some (e', l) /\ R g' e'.
 Proof. exact run_bisim. Qed.
@@ -67,13 +71,13 @@ Print Assumptions C02_statedb_bisim_partial.
    inside evm.Call's prologue (OCallEnter), reverts to live snapshots, access-list operations after
    PrepareAccessList; and no module-account / multi-denomination addresses (witnesses below). *)
 Definition C02_statedb_bisim_full : Prop := bisim_undisciplined.
-Theorem C02_statedb_bisim_refuted : ~ C02_statedb_bisim_full.
+Theorem C02_statedb_bisim_refuted : funext_stmt -> ~ C02_statedb_bisim_full.
 Proof. exact bisim_undisciplined_refuted. Qed.
 Print Assumptions C02_statedb_bisim_refuted.
 
 (* any deterministic client -- a function from the observation history to the next operation: the interpreter --
    yields the same operation / observation trace on both implementations *)
-Theorem C02_any_client_same_trace : forall extra client fuel g e hist,
+Theorem C02_any_client_same_trace : funext_stmt -> forall extra client fuel g e hist,
   R g e -> client_disc extra client fuel (absg g) hist ->
   exists g' e' tr,
     drive (gstep_x extra) client fuel g hist = Some (g', tr) /\
@@ -82,13 +86,13 @@ Proof. exact client_bisim. Qed.
 Print Assumptions C02_any_client_same_trace.
 
 (* each model refines the abstract EVM-view machine *)
-Theorem C02_geth_refines_abstract : forall extra o s,
+Theorem C02_geth_refines_abstract : funext_stmt -> forall extra o s,
   wf_g s -> wf_a (absg s) -> disc o (absg s) ->
   exists s' ob, gstep_x extra o s = Some (s', ob) /\ astep_x extra o (absg s) = Some (absg s', norm_obs o ob) /\ wf_g s'.
 Proof. exact gstep_refines. Qed.
 Print Assumptions C02_geth_refines_abstract.
 
-Theorem C02_evermint_refines_abstract : forall extra o s t,
+Theorem C02_evermint_refines_abstract : funext_stmt -> forall extra o s t,
   rel_e s t -> wf_a t -> disc o t ->
   exists s' ob t', estep_x extra o s = Some (s', ob) /\ astep_x extra o t = Some (t', norm_obs o ob) /\ rel_e s' t'.
 Proof. exact estep_refines. Qed.
@@ -96,13 +100,13 @@ Print Assumptions C02_evermint_refines_abstract.
 
 (* non-vacuity: a concrete related pair, a disciplined run on it with value transfer, SSTORE, refund, selfdestruct,
    reverts, a precompile call, logs and the end of the transaction; and what both models answer *)
-Example C02_R_example : R (ginit objs_ex) (einit store_ex).
+Example C02_R_example : funext_stmt -> R (ginit objs_ex) (einit store_ex).
 Proof. exact R_example. Qed.
 Example C02_disc_run_example : disc_run [9] ops_ex (absg (ginit objs_ex)).
 Proof. exact disc_run_example. Qed.
 
 (* witnesses of what separates the implementations outside the discipline / outside go-ethereum's universe *)
-Theorem C02_raw_exist_differs :
+Theorem C02_raw_exist_differs : funext_stmt ->
   exists g e, R g e /\
     (exists g0 e0 o1 o2, gstep (OAddBalance 7 0) (ginit objs0) = Some (g, o1) /\ estep_x [] (OAddBalance 7 0) (einit store0) = Some (e, o2) /\ g0 = g /\ e0 = e) /\
     (exists gs es, gstep (OExist 7) g = Some (gs, ObB true) /\ estep_x [] (OExist 7) e = Some (es, ObB false)).
